@@ -5,6 +5,7 @@
   Facts: NutsModel/Facts/C18.lean is REGENERATED from /repo on every run.
 -/
 import NutsModel.C18.Policy
+import NutsModel.C18.Cache
 import NutsProofs.Lemmas.C18
 
 namespace Nuts.C18.Props
@@ -22,8 +23,14 @@ theorem fact_content_types : Facts.C18.contentTypes =
      [97, 112, 112, 108, 105, 99, 97, 116, 105, 111, 110, 47, 100, 105, 100, 43, 106, 115, 111, 110],                    -- application/did+json
      [97, 112, 112, 108, 105, 99, 97, 116, 105, 111, 110, 47, 106, 115, 111, 110]] := by decide      -- application/json
 
-/-- `Resolve` compares the fetched document's id with the requested DID -/
-theorem fact_resolve_checks_document_id : Facts.C18.resolveChecksDocumentID = true := by decide
+/-- `Resolve` compares the id of the PARSED document — the very value it returns (`document`, `&document`) — with the
+    requested DID, and nothing else decides about the id -/
+theorem fact_resolve_checks_document_id : Facts.C18.resolveChecksDocumentID = true ∧
+    Facts.C18.resolveEqualsChecks = ["!document.ID.Equals(id)"] ∧ Facts.C18.resolveReturnsDocument = ["&document"] := by decide
+
+/-- the shared response cache is indexed by the full request URL (`URL.String()`), at every access -/
+theorem fact_cache_index : Facts.C18.cacheIndexExprs = ["httpRequest.URL.String()", "entry.requestURL.String()", "entry.requestURL.String()"] ∧
+    Facts.C18.cachePopKey = ["h.head.requestURL.String()"] := by decide
 
 /-- every `http.Client` of http/client refuses, in strict mode, a redirect to a non-https URL and keeps Go's limit of
     10 redirects; did:web's client additionally refuses to leave the origin of the first request -/
@@ -191,6 +198,33 @@ theorem redirect_witness :
       r.scheme = sHttp ∧ r.host = [49, 46, 50, 46, 51, 46, 52] := by
   refine ⟨{ scheme := sHttp, host := [49, 46, 50, 46, 51, 46, 52], path := [47, 120] }, ?_, rfl, rfl⟩
   decide
+
+/-! ### the node-wide HTTP cache cannot stand in for the HTTPS fetch -/
+
+/-- **The cache index is injective**: two request URLs share cache entries only if scheme, user-info, host (with port),
+    path, query and fragment are all equal (URLs of the stated shape) -/
+theorem cache_key_injective (u v : CUrl) (hu : u.wf = true) (hv : v.wf = true) (h : cacheKey u = cacheKey v) : u = v :=
+  cacheKey_inj u v hu hv h
+
+/-- Whatever other components of the node fetched before (any list of look-alike URLs: other scheme, port, user-info,
+    query, fragment, case, path), a did:web URL that is not itself among them is NOT served from the cache: the request
+    goes to the network, i.e. through the https / origin checks of `fetch_origin_bound`. -/
+theorem cache_no_foreign_entry (cacheable : Bool) (us : List CUrl) (u : CUrl) (hus : ∀ v ∈ us, v.wf = true) (hu : u.wf = true)
+    (hne : u ∉ us) : (cacheGet cacheable (us.map cacheKey) u).2 = some (cacheKey u) := by
+  unfold cacheGet
+  have : (us.map cacheKey).contains (cacheKey u) = false := by
+    cases hc : (us.map cacheKey).contains (cacheKey u) with
+    | false => rfl
+    | true =>
+      obtain ⟨v, hv, hk⟩ := List.mem_map.mp (List.contains_iff_mem.mp hc)
+      exact absurd (cacheKey_inj v u (hus v hv) hu hk ▸ hv) hne
+  rw [if_neg (by rw [this]; exact Bool.false_ne_true)]
+
+/-- non-vacuity / why the index matters: `http://h/p` and `https://h/p`, and `https://h/p?x` have different keys, while an
+    index on host + path alone would identify them -/
+example : cacheKey { scheme := sHttp, host := [104], path := [47, 112] } ≠ cacheKey { scheme := sHttps, host := [104], path := [47, 112] } ∧
+    cacheKey { scheme := sHttps, host := [104], path := [47, 112], query := [120] } ≠ cacheKey { scheme := sHttps, host := [104], path := [47, 112] } ∧
+    (({ scheme := sHttps, host := [104], path := [47, 112] } : CUrl).wf = true) := by decide
 
 /-! ### the returned document is the requested one -/
 
